@@ -92,5 +92,223 @@ mod kani_c07 {
             touch(p.as_ref().len());
         }
     }
+    // ------------------------------------------------------------------------------------------ ICMPv4
+    #[cfg(feature = "proto-ipv4")]
+    #[kani::proof] #[kani::unwind(13)]
+    fn c07_icmpv4_packet() {
+        const L: usize = 8 + 24 + 12;
+        let buf: [u8; L] = kani::any();
+        let n: usize = kani::any();
+        kani::assume(n <= L); // tag: range
+        let r = Icmpv4Packet::new_checked(&buf[..n]);
+        kani::cover!(r.is_err(), "short packet rejected");
+        if let Ok(p) = r {
+            touch(p.msg_type()); touch(p.msg_code()); touch(p.checksum()); touch(p.header_len()); touch(p.verify_checksum());
+            if matches!(p.msg_type(), Icmpv4Message::EchoRequest | Icmpv4Message::EchoReply) { touch(p.echo_ident()); touch(p.echo_seq_no()); }
+            assert!(p.data().len() == n - 8);
+            let r1 = Icmpv4Repr::parse(&p, &ChecksumCapabilities::default());
+            let r2 = Icmpv4Repr::parse(&p, &ChecksumCapabilities::ignored());
+            kani::cover!(matches!(r2, Ok(Icmpv4Repr::DstUnreachable { .. })), "destination unreachable parsed");
+            kani::cover!(matches!(r2, Ok(Icmpv4Repr::TimeExceeded { .. })) && buf[8] & 0x0f > 5, "time exceeded quoting a header with options parsed");
+            kani::cover!(r1.is_ok(), "parse with checksum verification can succeed");
+            touch(r1); touch(r2);
+            touch(p.as_ref().len());
+        }
+    }
+
+    // ------------------------------------------------------------------------------------------ ICMPv6 (generic view; echo and error messages)
+    #[cfg(feature = "proto-ipv6")]
+    #[kani::proof] #[kani::unwind(18)]
+    fn c07_icmpv6_packet() {
+        const L: usize = 8 + 40 + 8;
+        let buf: [u8; L] = kani::any();
+        let n: usize = kani::any();
+        kani::assume(n <= L); // tag: range
+        let (src, dst) = (ip6(), ip6());
+        let r = Icmpv6Packet::new_checked(&buf[..n]);
+        kani::cover!(r.is_err() && n >= 8, "packet shorter than its type's header rejected");
+        if let Ok(p) = r {
+            let t = p.msg_type();
+            touch(t); touch(p.msg_code()); touch(p.checksum()); touch(p.header_len()); touch(p.verify_checksum(&src, &dst));
+            touch(t.is_error()); touch(t.is_ndisc()); touch(t.is_mld());
+            match t {
+                Icmpv6Message::EchoRequest | Icmpv6Message::EchoReply => { touch(p.echo_ident()); touch(p.echo_seq_no()); }
+                Icmpv6Message::PktTooBig => touch(p.pkt_too_big_mtu()),
+                Icmpv6Message::ParamProblem => touch(p.param_problem_ptr()),
+                _ => (),
+            }
+            assert!(p.payload().len() == n - p.header_len());
+            touch(p.check_len());
+            touch(p.as_ref().len());
+        }
+    }
+
+    /// Icmpv6Repr::parse on echo and error messages (NDISC / MLD bodies: see the ndisc / mld harnesses)
+    #[cfg(feature = "proto-ipv6")]
+    #[kani::proof] #[kani::unwind(18)]
+    fn c07_icmpv6_repr_parse() {
+        const L: usize = 8 + 40 + 8;
+        let buf: [u8; L] = kani::any();
+        let n: usize = kani::any();
+        kani::assume(n <= L); // tag: range
+        let t = buf[0];
+        kani::assume(!(0x82..=0x8f).contains(&t)); // tag: scope
+        let (src, dst) = (ip6(), ip6());
+        if let Ok(p) = Icmpv6Packet::new_checked(&buf[..n]) {
+            let r1 = Icmpv6Repr::parse(&src, &dst, &p, &ChecksumCapabilities::default());
+            let r2 = Icmpv6Repr::parse(&src, &dst, &p, &ChecksumCapabilities::ignored());
+            kani::cover!(matches!(r2, Ok(Icmpv6Repr::PktTooBig { .. })), "packet too big parsed");
+            kani::cover!(r2.is_err() && n >= 8 && t == 1, "error message without a full quoted header rejected");
+            kani::cover!(r1.is_ok(), "parse with checksum verification can succeed");
+            touch(r1); touch(r2);
+        }
+    }
+
+    // ------------------------------------------------------------------------------------------ IPv6
+    #[cfg(feature = "proto-ipv6")]
+    #[kani::proof] #[kani::unwind(18)]
+    fn c07_ipv6_packet() {
+        const L: usize = 40 + 12;
+        let buf: [u8; L] = kani::any();
+        let n: usize = kani::any();
+        kani::assume(n <= L); // tag: range
+        let r = Ipv6Packet::new_checked(&buf[..n]);
+        kani::cover!(r.is_ok() && n == L && buf[5] == 12, "packet with payload accepted");
+        kani::cover!(r.is_err() && n >= 40, "payload length beyond the buffer rejected");
+        if let Ok(p) = r {
+            touch(p.version()); touch(p.traffic_class()); touch(p.flow_label()); touch(p.payload_len()); touch(p.total_len());
+            touch(p.next_header()); touch(p.hop_limit()); touch(p.src_addr()); touch(p.dst_addr()); touch(p.header_len());
+            assert!(p.payload().len() == p.payload_len() as usize);
+            let rr = Ipv6Repr::parse(&p);
+            kani::cover!(rr.is_ok(), "IPv6 parse can succeed");
+            touch(rr); touch(p.check_len());
+            touch(p.as_ref().len());
+        }
+    }
+
+    // ------------------------------------------------------------------------------------------ UDP
+    // Repr::parse takes the pseudo-header addresses; both are of the same IP version (API precondition: they come from one IP header).
+    #[cfg(feature = "proto-ipv4")]
+    #[kani::proof] #[kani::unwind(8)]
+    fn c07_udp_packet_v4() {
+        const L: usize = 8 + 12;
+        let buf: [u8; L] = kani::any();
+        let n: usize = kani::any();
+        kani::assume(n <= L); // tag: range
+        let (src, dst) = (IpAddress::Ipv4(ip4()), IpAddress::Ipv4(ip4()));
+        let r = UdpPacket::new_checked(&buf[..n]);
+        kani::cover!(r.is_err() && n >= 8, "length field below header size or beyond the buffer rejected");
+        if let Ok(p) = r {
+            touch(p.src_port()); touch(p.dst_port()); touch(p.len()); touch(p.checksum());
+            touch(p.verify_checksum(&src, &dst)); touch(p.verify_partial_checksum(&src, &dst));
+            assert!(p.payload().len() == p.len() as usize - 8);
+            let r1 = UdpRepr::parse(&p, &src, &dst, &ChecksumCapabilities::default());
+            let r2 = UdpRepr::parse(&p, &src, &dst, &ChecksumCapabilities::ignored());
+            kani::cover!(r1.is_ok() && p.checksum() != 0, "UDP parse with checksum verification can succeed");
+            kani::cover!(r2.is_err(), "destination port 0 rejected");
+            touch(r1); touch(r2); touch(p.check_len());
+            touch(p.as_ref().len());
+        }
+    }
+
+    #[cfg(feature = "proto-ipv6")]
+    #[kani::proof] #[kani::unwind(18)]
+    fn c07_udp_packet_v6() {
+        const L: usize = 8 + 12;
+        let buf: [u8; L] = kani::any();
+        let n: usize = kani::any();
+        kani::assume(n <= L); // tag: range
+        let (src, dst) = (IpAddress::Ipv6(ip6()), IpAddress::Ipv6(ip6()));
+        if let Ok(p) = UdpPacket::new_checked(&buf[..n]) {
+            touch(p.verify_checksum(&src, &dst)); touch(p.verify_partial_checksum(&src, &dst));
+            let r1 = UdpRepr::parse(&p, &src, &dst, &ChecksumCapabilities::default());
+            kani::cover!(r1.is_ok(), "UDP over IPv6 parse with checksum verification can succeed");
+            kani::cover!(r1.is_err() && p.checksum() == 0 && p.dst_port() != 0, "UDP over IPv6 without checksum rejected");
+            touch(r1);
+        }
+    }
+
+    // ------------------------------------------------------------------------------------------ TCP
+    #[kani::proof] #[kani::unwind(4)]
+    fn c07_tcp_option_parse() {
+        const L: usize = 40; // the option area of a TCP header holds at most 40 bytes
+        let buf: [u8; L] = kani::any();
+        let n: usize = kani::any();
+        kani::assume(n <= L); // tag: range
+        let r = TcpOption::parse(&buf[..n]);
+        kani::cover!(matches!(r, Ok((_, TcpOption::SackRange([Some(_), Some(_), Some(_)])))), "three SACK blocks parsed");
+        kani::cover!(r.is_err() && n >= 2 && buf[1] == 0, "option with length 0 rejected");
+        kani::cover!(r.is_err() && n >= 2 && buf[1] as usize > n, "option longer than the buffer rejected");
+        if let Ok((rest, opt)) = r {
+            assert!(rest.len() < n, "C07.tcpopt: an option consumes at least one byte (option walks terminate)");
+            touch(opt.buffer_len());
+        }
+    }
+
+    #[kani::proof] #[kani::unwind(18)]
+    fn c07_tcp_packet_fields() {
+        const L: usize = 64; // maximal header (60) + 4
+        let buf: [u8; L] = kani::any();
+        let n: usize = kani::any();
+        kani::assume(n <= L); // tag: range
+        let (src, dst) = c07_ip_pair();
+        let r = TcpPacket::new_checked(&buf[..n]);
+        kani::cover!(r.is_ok() && buf[12] >> 4 == 15, "maximal data offset accepted");
+        kani::cover!(r.is_err() && n >= 20, "data offset below 5 or beyond the buffer rejected");
+        if let Ok(p) = r {
+            touch(p.src_port()); touch(p.dst_port()); touch(p.seq_number()); touch(p.ack_number());
+            touch(p.fin()); touch(p.syn()); touch(p.rst()); touch(p.psh()); touch(p.ack()); touch(p.urg()); touch(p.ece()); touch(p.cwr()); touch(p.ns());
+            touch(p.header_len()); touch(p.window_len()); touch(p.checksum()); touch(p.urgent_at()); touch(p.segment_len());
+            touch(p.verify_checksum(&src, &dst)); touch(p.verify_partial_checksum(&src, &dst));
+            assert!(p.options().len() == p.header_len() as usize - 20 && p.payload().len() == n - p.header_len() as usize);
+            touch(p.check_len());
+            touch(p.as_ref().len());
+        }
+    }
+
+    fn c07_ip_pair() -> (IpAddress, IpAddress) {
+        #[cfg(feature = "proto-ipv4")]
+        { (IpAddress::Ipv4(ip4()), IpAddress::Ipv4(ip4())) }
+        #[cfg(not(feature = "proto-ipv4"))]
+        { (IpAddress::Ipv6(ip6()), IpAddress::Ipv6(ip6())) }
+    }
+
+    // option walks: header + TCP7_OPT option bytes + 2 payload bytes
+    const TCP7_OPT: usize = 12;
+
+    #[kani::proof] #[kani::unwind(14)]
+    fn c07_tcp_packet_option_walks() {
+        const L: usize = 20 + TCP7_OPT + 2;
+        let buf: [u8; L] = kani::any();
+        let n: usize = kani::any();
+        kani::assume(n <= L); // tag: range
+        if let Ok(p) = TcpPacket::new_checked(&buf[..n]) {
+            let s1 = p.selective_ack_permitted();
+            let s2 = p.selective_ack_ranges();
+            let s3 = p.options_summary();
+            kani::cover!(matches!(s1, Ok(true)), "SACK-permitted found");
+            kani::cover!(matches!(s2, Ok([Some(_), None, None])), "one SACK block found");
+            kani::cover!(s3.is_err(), "malformed option list rejected");
+            touch(s1); touch(s2); touch(s3);
+        }
+    }
+
+    #[kani::proof] #[kani::unwind(14)]
+    fn c07_tcp_repr_parse() {
+        const L: usize = 20 + TCP7_OPT + 2;
+        let buf: [u8; L] = kani::any();
+        let n: usize = kani::any();
+        kani::assume(n <= L); // tag: range
+        let (src, dst) = c07_ip_pair();
+        if let Ok(p) = TcpPacket::new_checked(&buf[..n]) {
+            let r1 = TcpRepr::parse(&p, &src, &dst, &ChecksumCapabilities::default());
+            let r2 = TcpRepr::parse(&p, &src, &dst, &ChecksumCapabilities::ignored());
+            kani::cover!(r1.is_ok(), "TCP parse with checksum verification can succeed");
+            kani::cover!(matches!(r2, Ok(TcpRepr { window_scale: Some(14), .. })), "window scale option parsed");
+            if let Ok(r) = r2 { touch(r.header_len()); touch(r.buffer_len()); touch(r.segment_len()); touch(r.is_empty()); }
+            touch(r1);
+        }
+    }
+
     // ==== END kani_c07 ====
 }
